@@ -145,6 +145,65 @@ def _run_case(case, st):
             chk("zombie-%s" % nm, got, ok, "ZombieProcess")
         p.zombie = False
         p.wstatus = None
+    elif k == "midzombie":
+        # the process exits (becomes a zombie) just before kernel access kk of ONE call: the answer is the one of the live process
+        # (everything had been read) or ZombieProcess -- and the same question asked again gets ZombieProcess, not a remembered guess
+        what, kk = case[1], case[2]
+        p.cmdline = b"/bin/x\0-v\0"
+        if what == "exe-withheld":
+            p.exe = None                      # (kernel withholds the link of a live task: psutil falls back on argv[0])
+        fresh = outcome(psutil.Process, p.pid)
+        pr2 = fresh[1]
+        cnt = [0]
+
+        def hook(world, kind, subj, pid_):
+            if cnt[0] == kk and not p.zombie:
+                world.exit(p.pid)
+            cnt[0] += 1
+        meth = {"exe-withheld": "exe", "exe": "exe", "cmdline": "cmdline", "name": "name"}[what]
+        live = {"exe-withheld": "/bin/x", "exe": "/bin/x", "cmdline": ["/bin/x", "-v"], "name": "x"}[what]
+        if what == "block":
+            pass
+        w.hook = hook
+        try:
+            got = outcome(getattr(pr2, meth))
+        finally:
+            w.hook = None
+        happened = p.zombie
+        ok = got == ("ok", live) or (happened and got[0] == "exc" and got[1] == "ZombieProcess")
+        if meth == "name" and got[0] == "ok":
+            ok = True                         # (name() of a zombie is its kernel name: a value either way)
+        chk("%s:exits-before-access-%d" % (what, kk), got, ok, (live, "or ZombieProcess"))
+        if happened and meth in ("exe", "cmdline"):
+            got2 = outcome(getattr(pr2, meth))
+            ok2 = (got2[0] == "exc" and got2[1] == "ZombieProcess") or (meth == "exe" and got == ("ok", live) and got2 == got)
+            chk("%s:asked-again-after-the-exit" % what, got2, ok2, "ZombieProcess (or the cached live answer)")
+        if p.zombie:
+            p.zombie = False
+            p.wstatus = None
+    elif k == "blockzombie":
+        # inside ONE oneshot() block: a stat-backed answer first, then the process exits, then cmdline(): ZombieProcess, or what a
+        # live process had (never the zombie's empty list, which was true of neither)
+        p.cmdline = b"/bin/x\0-v\0"
+        fresh = outcome(psutil.Process, p.pid)
+        pr2 = fresh[1]
+        first = case[1]
+
+        def blk():
+            with pr2.oneshot():
+                getattr(pr2, first)()
+                w.exit(p.pid)
+                return outcome(pr2.cmdline), outcome(lambda: pr2.as_dict(attrs=["cmdline"], ad_value="AD"))
+        got = outcome(blk)
+        if got[0] != "ok":
+            chk("block-raised", got, False, "answers")
+        else:
+            a, b = got[1]
+            chk("cmdline-after-exit-in-block:%s-first" % first, a, a == ("ok", ["/bin/x", "-v"]) or (a[0] == "exc" and a[1] == "ZombieProcess"), "ZombieProcess")
+            chk("as_dict-cmdline-after-exit-in-block:%s-first" % first, b, b[0] == "ok" and b[1].get("cmdline") in ("AD", ["/bin/x", "-v"]), {"cmdline": "AD"})
+        if p.zombie:
+            p.zombie = False
+            p.wstatus = None
     elif k == "nameseq":
         p.comm = case[1]
         for data in case[2]:
@@ -243,7 +302,7 @@ def _run_case(case, st):
 def run_case(case, st):
     # exe() is cached for the life of the object by the statement itself; a process that is made to vanish inside the case
     # leaves the object of later cases in a state the case did not set up
-    return LongLived.both(_run_case, case, st, skip=lambda c: (c[0] == "link" and (c[1] == "exe" or c[3] == "gone")) or c[0] == "name" or (c[0] == "longlink" and c[1] == "exe"), repoint=True)
+    return LongLived.both(_run_case, case, st, skip=lambda c: (c[0] == "link" and (c[1] == "exe" or c[3] == "gone")) or c[0] in ("name", "midzombie", "blockzombie") or (c[0] == "longlink" and c[1] == "exe"), repoint=True)
 
 
 def worker(chunk):
@@ -280,6 +339,11 @@ def build_cases(thorough):
     for comm in (b"a" * 15, b"long-program-na"):
         cases.append(("nameseq", comm, [comm + b"-one\0", comm + b"-two\0", b"/usr/bin/other\0", comm + b"-three x\0"]))
     cases.append(("cmdline", b"", False))
+    for what in ("exe-withheld", "exe", "cmdline", "name"):
+        for kk in range(0, 9):
+            cases.append(("midzombie", what, kk))
+    for first in ("ppid", "name", "status", "cpu_times", "create_time"):
+        cases.append(("blockzombie", first))
     envs = [[]]
     for n in range(1, nmax + 2):
         envs += [list(c) for c in itertools.product(ENVS, repeat=n)]
